@@ -39,6 +39,11 @@ def cases(draw, tier):
     d = D(draw)
     if d.p(4):
         return gen.scotland_prior_stage_case(d) if d.p(60) else gen.scotland_threeway_case(d)
+    if d.p(2):
+        case = gen.fractional_landing_case(d)        # a tally exactly on a fractional threshold (>= versus >)
+        if case['rule'] == 'wigm' and case['options'].get('precision') != 4:
+            case.update(rule='wigm-prf', options={})
+        return case
     rules = model.STATUTORY + ('wigm',)
     case = draw(gen.election_cases(tier=tier, rules=rules, default_options=True, chains=True))
     if case['rule'] == 'wigm':
@@ -388,3 +393,9 @@ def check_qpq(res, o, nc, ns, ballots, tie, back):
     d = first_diff(ev2, ref)
     if d is not None:
         res.fail('history', 'history|qpq', 'event %d: droop %s; reference %s' % (d[0], describe(d[1]), describe(d[2])))
+
+
+def valid_case(case):
+    if case['rule'] == 'wigm' and case.get('options') != {'arithmetic': 'fixed', 'precision': 4}:
+        return False        # the wigm clause of the property is about this configuration only
+    return model.valid(case)
